@@ -91,7 +91,8 @@ Far == {32, 33, 63}
 Probes == {37, 69, 133, 261, 517}
 ASpell == <<"num", "equ", "port", "sfr">>
 Uses == <<"sym,", "sym.", "dot", "comma">>
-AddrsFor(sp) == IF sp \in {"port", "sfr"} THEN {a \in Near \cup Far \cup Probes : a <= 63} ELSE Near \cup Far \cup Probes
+\* a BIT definition needs an address the device has (CanDefine): small devices (AT90S2313: data ends at 0DFh) lose the upper probes
+AddrsFor(sp) == IF sp \in {"port", "sfr"} THEN {a \in Near \cup Far \cup Probes : a <= 63} ELSE {a \in Near \cup Far \cup Probes : a <= DataMax}
 BitsFor(u) == IF u \in {"sym,", "sym."} THEN {0, 1, 3, 7} ELSE {0, 1, 3, 7, 8}
 FormSeq == <<"SBI", "CBI", "SBIC", "SBIS">>
 Rank(S, x) == Cardinality({y \in S : y < x})
